@@ -9,6 +9,7 @@ TV   : limit_df / limit_signal / split_samples_df / drop_samples_df / flatten_df
 import numpy as np
 
 import mc_tables
+import project as pj
 import tables_tv as tt
 
 PREFIXES = ['C18.']
@@ -28,11 +29,11 @@ def run_tv(ctx, n_tables, max_len=800):
                 (2 * int(rng.integers(0, n // 2)), 2 * int(rng.integers(n // 2, n))), (2 * int(last[0]) + 2, 2 * int(last[0]) + 4), (0, 0)]
         for a2, b2 in wins:
             reset = bool(rng.integers(0, 2))
-            recs.append(tt.record_limit(df, fs, a2, b2, reset))
-            metas.append({'kind': c['kind'], 'centre': c['opts']['center_extrema'], 'fs': fs, 'a2': a2, 'b2': b2, 'reset': reset, 'cycles': len(df)})
+            recs.append(tt.record_limit(df, fs, a2, b2, reset, lab=len(recs) // 2))
+            metas.append({'kind': c['kind'], 'labels': pj.LABELLINGS[((len(recs) - 1) // 2) % 4], 'centre': c['opts']['center_extrema'], 'fs': fs, 'a2': a2, 'b2': b2, 'reset': reset, 'cycles': len(df)})
             recs.append(tt.record_limit_signal(n, fs, a2, b2))
             metas.append({'n': n, 'fs': fs, 'a2': a2, 'b2': b2})
-        for r in tt.record_split_drop(df):
+        for r in tt.record_split_drop(df, lab=len(recs) // 3):
             recs.append(r)
             metas.append({'kind': c['kind'], 'centre': c['opts']['center_extrema'], 'columns': len(df.columns)})
     dfs = [d for _, d in tabs]
